@@ -71,6 +71,8 @@ std::string program_str(const Program &p)
 }
 
 const int kQueues = 2;
+// the value a waker hands over is pointer sized: odd program values travel with bits above 2^32 set (an object address, say)
+inline long wide_future(long v) { return (v & 1) ? v + (0x5a5aL << 32) : v; }
 
 Program gen_program(Src &s)
 {
